@@ -112,6 +112,10 @@ var blockCores = []string{
 	"c = make(chan int64)\nvprobe(\"r\", <-c)",
 	"c = make(chan int64)\ntyped(<-c)",
 	"c = make(chan int64)\nprobe2(1, <-c)\nprobe(\"after\")",
+	// operators on operands that would make a host-side loop run (astronomic counts on EMPTY containers, cyclic pointers): the
+	// statement loop around them keeps polling
+	"a = []\nfor {\nb = a * 4611686018427387904\n}", "a = \"\"\nfor {\nb = a * 4611686018427387904\n}", "a = []\nn = 4611686018427387904\nfor {\nb = a + a\nc = a * n\n}",
+	"a = 1\np = &a\n*p = p\nn = 0\nfor {\nif p == 1 {\nn++\n}\n}", "a = 1\np = &a\n*p = p\nfor {\nx = (p in [1, 2])\nswitch p {\ncase 1:\n}\n}", "a = 1\np = &a\n*p = p\nfor {\nx = (p != p)\n}",
 	// spinning without a loop and without a statement list: recursion through functions whose body is one return
 	"func fib(n) {\nreturn n < 2 ? n : fib(n - 1) + fib(n - 2)\n}\nfib(60)",
 	"func even(n, r...) {\nreturn n == 0 ? true : odd(n - 1, 1)\n}\nfunc odd(n, r...) {\nreturn n == 0 ? false : even(n - 1)\n}\nfunc spin(k) {\nreturn even(2000) == spin(k + 1)\n}\nspin(0)",
